@@ -644,7 +644,11 @@ func (fc *FnCtx) runDefers(st *State, g *smt.Term, where string) {
 		before := st.clone()
 		saveReach := fc.curReach
 		fc.curReach = dg
-		if fn := fc.deferTarget(d); fn != nil && fn.Parent() == fc.Fn && fc.P.Contract[fc.nameOfFn(fn)] == nil {
+		if fn := fc.deferTarget(d); fn != nil && fn.Parent() == fc.Fn && (fc.P.Contract[fc.nameOfFn(fn)] == nil || fc.contractSpeaksOfCaptured(fc.P.Contract[fc.nameOfFn(fn)], fn)) {
+			// a deferred closure of this very function is inlined: without a contract,
+			// and also when its contract speaks of the captured variables (the modular
+			// call rule knows parameters only; the closure's own contract is still
+			// proved on its body, and its captured-variable requires at MakeClosure)
 			res := fc.inlineClosure(fn, d.fnVal, st, dg, nil)
 			for _, e := range res.panics {
 				fc.checkPanicEnsures(st, e.guard, e.val, where)
@@ -665,6 +669,31 @@ func (fc *FnCtx) runDefers(st *State, g *smt.Term, where string) {
 			}
 		}
 	}
+}
+
+// contractSpeaksOfCaptured: a requires/ensures clause of the closure's contract
+// names one of its captured variables.
+func (fc *FnCtx) contractSpeaksOfCaptured(cs *spec.FuncSpec, fn *ssa.Function) bool {
+	free := map[string]bool{}
+	for _, fv := range fn.FreeVars {
+		free[fv.Name()] = true
+	}
+	for _, p := range cs.Params {
+		delete(free, p)
+	}
+	found := false
+	see := func(y spec.Expr) {
+		if id, ok := y.(*spec.Ident); ok && free[id.Name] {
+			found = true
+		}
+	}
+	for _, c := range cs.Requires {
+		walk(c.E, see)
+	}
+	for _, c := range cs.Ensures {
+		walk(c.E, see)
+	}
+	return found
 }
 
 func (fc *FnCtx) deferredCall(d deferRec, c *ssa.CallCommon, st *State, g *smt.Term, where string) {
